@@ -228,7 +228,31 @@ def enum_stray(tier, worker, nworkers):
             k += 1
 
 
+# constructs whose span covers several lines, starting on line L for L around every power of ten (the width of the line-number
+# gutter changes inside the span)
+LINED = [
+    "error\n'x'", "(1 +\n'a' -\n1)", "[1,\n2,\n3][\n5]", "{\n a: 1,\n}.b", "local f(x) =\n x.y;\nf(\n1\n)", "assert\nfalse\n:\n'm'; 1", "/*\n unterminated", "'unterminated\nstring",
+    "|||\n  text\n", "[1,\n2\n", "local a = 1,\n a = 2; a", "{\n a: error\n 'deep',\n b: [self.a,\n 1]\n}", "std.foldl(\nfunction(a, b) a + b,\n[1, 'x',\n{}],\n0)",
+    "local f(n) =\n if n == 0 then error\n 'bottom' else\n f(n - 1);\nf(\n3)", "{ a:\n\n\n\n\n\n\n\n\n\n\n\n 1 }\n.b",
+]
+LINES = [1, 2, 8, 9, 10, 11, 98, 99, 100, 101, 998, 999, 1000, 1001, 9999, 10000]
+
+
+def enum_lined(tier, worker, nworkers):
+    k = 0
+    for li, line in enumerate(LINES):
+        for ci in range(len(LINED)):
+            if tier == "quick" and (li + ci) % 2:
+                continue
+            if k % nworkers == worker:
+                yield {"kind": "lined", "line": line, "construct": ci, "cli": True, "max_trace": 20, "color": bool((li + ci) % 3 == 0)}
+            k += 1
+
+
 def build_source(case):
+    if case["kind"] == "lined":
+        filler = "\n" if case["line"] % 2 else "// c\n"
+        return (filler * (case["line"] - 1) + LINED[case["construct"]]).encode("utf-8"), {}, []
     if case["kind"] == "stray":
         src, files = stray_source(case["cp"], case["place"])
         return src.encode("utf-8"), {k: v.encode("utf-8") for k, v in files.items()}, []
@@ -387,6 +411,7 @@ CHECKS = [
     Check("span_manager_roundtrip", check_spans, span_case, quick=400, thorough=15000),
     Check("error_spans_and_rendering", check_failing, failing_case, quick=250, thorough=8000),
     Check("stray_characters_render", check_failing, enumerate_fn=enum_stray),
+    Check("multi_line_spans_at_every_gutter_width", check_failing, enumerate_fn=enum_lined),
     _fuzz.replay_check(["pipeline"]),
 ]
 FUZZ = [("pipeline", 300_000, 800)]
